@@ -88,6 +88,18 @@ R['C07'] = {
  "bounds": "wip", "require_reach": ["reach:end","reach:row-raw"], "opts": {"unwind": 100},
 }
 
+R['C14'] = {
+ "quick": [{"h":"VpC14_Decode","x":[rng(0,63)]},{"h":"VpC14_Encode","x":[rng(0,254)]},{"h":"VpC14_Negative","x":[[0,1,100,127,145,200,254]]},
+           {"h":"VpC14_RefProps"},{"h":"VpC14_Count","x":[[0,1,2,255]]}],
+ "bounds": "decode: all 64 x 2^18 wire pairs (one query per exponent); encode: every finite non-negative float32 (one query per IEEE exponent field 0..254, fraction symbolic, denormals included); negative: 7 exponent fields x all fractions; SSRC lists of length 0,1,2,255",
+ "require_reach": ["reach:end"], "opts": {"unwind": 300},
+ "assumptions": ["monotonicity, minimal exponent and the rounding gap are proved on the bit-level reference encoder, which VpC14_Encode shows equal to MarshalTo for every finite non-negative float32"],
+ "outside_claim": ["NaN and +Inf bitrates (the property quantifies over finite values)"],
+}
+R['C14']['thorough'] = [dict(c) for c in R['C14']['quick']]
+R['C14']['thorough'][2] = {"h":"VpC14_Negative","x":[rng(0,254)]}
+R['C14']['thorough'][4] = {"h":"VpC14_Count","x":[[0,1,2,3,100,254,255]]}
+
 R['C01'] = {
  "quick": [{"h":"VpC01_Decode","x":[rng(1,23),rng(0,20)]}],
  "bounds": "wip",
